@@ -6,7 +6,12 @@
 
 use arcstr::ArcStr;
 use serde::{Deserialize, Serialize};
+#[cfg(not(kani))]
 use std::collections::BTreeMap;
+// verification builds: `Value::Map` holds the association-list stand-in (see utils/kani_shim.rs),
+// whose drop leaks its entries, so that the drop glue of `Value` has no tree-walking arm
+#[cfg(kani)]
+use crate::utils::hash::FxHashMap as BTreeMap;
 use std::fmt;
 use std::hash::{Hash, Hasher};
 use std::sync::Arc;
